@@ -26,7 +26,7 @@ def run(ctx):
     ctx.tlc_many(jobs, parallel=6)
     core.cat_files(outs, out)
     cf = [cfgs.K_EC[0], cfgs.K_EC[1], cfgs.K_EC[3]] if quick else cfgs.K_EC
-    ctx.replay_all(out, cf)
+    ctx.replay_sharded(out, cf, shards=4)      # the pure-Go backend needs minutes for the SM9 cases in one process
     # binding guard: corrupt the first allowed outcome's consumed count of a fault-free run -> must be reported
     import json
     g = os.path.join(ctx.scratch, "c12guard.ndjson")
